@@ -46,12 +46,12 @@ if full.returncode != 0:   # flaky mux tests: retry failing tests once
         meta["ran"].append({"cmd": "re-run of failing tests %s" % names, "rc": rr.returncode})
         if rr.returncode == 0: full.returncode = 0
 meta["ran"].append({"cmd": "go test -count=1 ./... with the change", "rc": full.returncode, "wall_s": round(time.time() - t0), "fails": fails[:5]})
-chk = subprocess.run([os.path.join(ROOT, "check"), prop, "--tier", "quick"], cwd=ROOT, env=dict(os.environ, VERIF_REPO=wt), capture_output=True, text=True)
+chk = subprocess.run([os.path.join(ROOT, "check"), prop, "--tier", "quick"], cwd=ROOT, env=dict(os.environ, VERIF_REPO=wt, VERIF_EVIDENCE_DIR="/var/tmp/vs/ev_confirm_" + sid), capture_output=True, text=True)
 meta["check"] = {"cmd": "VERIF_REPO=<worktree with the change> ./check %s --tier quick" % prop, "rc": chk.returncode,
                  "violations": [l for l in chk.stdout.splitlines() if l.startswith("VIOLATION")][:3],
                  "details": [l.strip()[:300] for l in chk.stderr.splitlines() if "violation detail" in l][:3]}
 run(["git", "checkout", "--", "."])
-subprocess.run(["git", "-C", ROOT, "checkout", "--", "evidence"], capture_output=True)
+shutil.rmtree("/var/tmp/vs/ev_confirm_" + sid, ignore_errors=True)
 ok = r0.returncode == 0 and a.returncode == 0 and vt.returncode == 0 and r1.returncode != 0 and full.returncode == 0
 meta["confirmed"] = ok
 meta["caught_by_quick_check"] = chk.returncode == 1
